@@ -1871,13 +1871,13 @@ def _pre(cls_of):
 
 def subchecks(tier):
     return [
-        Sub("likelihood", body_like, strategy=like_cases, quick=520, thorough=16000, pretags=like_pretags),
+        Sub("likelihood", body_like, strategy=like_cases, quick=440, thorough=14000, pretags=like_pretags),
         Sub("coalescent", body_coal, strategy=coal_cases, quick=360, thorough=10000, pretags=lambda c: {"cls": c08.CLS[c["p"]["model"]]}),
-        Sub("skyline", body_bdsk, strategy=bdsk_cases, quick=200, thorough=5000, pretags=_pre(lambda c: "BDSKModel")),
+        Sub("skyline", body_bdsk, strategy=bdsk_cases, quick=160, thorough=5000, pretags=_pre(lambda c: "BDSKModel")),
         Sub("gmrf", body_gmrf, strategy=gmrf_cases, quick=300, thorough=8000, pretags=_pre(lambda c: c["what"])),
-        Sub("priors", body_priors, strategy=prior_cases, quick=240, thorough=6000, pretags=_pre(lambda c: c["what"])),
-        Sub("distributions", body_dist, strategy=dist_cases, quick=300, thorough=8000, pretags=_pre(lambda c: c["what"])),
-        Sub("jacobian", body_jacobian, strategy=jacobian_cases, quick=300, thorough=8000, pretags=_pre(lambda c: c["what"])),
-        Sub("joint", body_joint, strategy=joint_cases, quick=170, thorough=5000, pretags=lambda c: dict(like_pretags(c), cls="JointDistributionModel")),
+        Sub("priors", body_priors, strategy=prior_cases, quick=200, thorough=6000, pretags=_pre(lambda c: c["what"])),
+        Sub("distributions", body_dist, strategy=dist_cases, quick=160, thorough=5000, pretags=_pre(lambda c: c["what"])),
+        Sub("jacobian", body_jacobian, strategy=jacobian_cases, quick=240, thorough=8000, pretags=_pre(lambda c: c["what"])),
+        Sub("joint", body_joint, strategy=joint_cases, quick=150, thorough=5000, pretags=lambda c: dict(like_pretags(c), cls="JointDistributionModel")),
         Sub("degenerate_start", body_degenerate, enumerate=degenerate_cases, exhaustive=True, pretags=degenerate_tags),
     ]
